@@ -290,6 +290,47 @@ mod c21 {
             }
         };
     }
+    /// The same through `Did::decode` ("did:key:" + multibase key).
+    fn did_parse<const LEN: usize>() {
+        use radicle::identity::Did;
+        let p: [u8; 34] = kani::any();
+        unsafe {
+            PAYLOAD = p;
+            PAYLOAD_LEN = LEN;
+            DECODE_FAILS = kani::any();
+        }
+        #[cfg(not(test))]
+        let text = String::from("did:key:z");
+        #[cfg(test)]
+        let text = if unsafe { DECODE_FAILS } { String::from("did:key:!") } else { format!("did:key:{}", multibase::encode(multibase::Base::Base58Btc, &p[..LEN])) };
+        let r = Did::decode(&text);
+        std::mem::forget(text);
+        match r {
+            Ok(d) => {
+                assert!(LEN == 34 && p[0] == 0xED && p[1] == 0x01 && unsafe { !DECODE_FAILS }, "C21: a DID was parsed from a payload that is not multicodec ed25519 + 32 bytes");
+                let mut i = 0;
+                while i < 32 {
+                    assert!(d.as_key().as_ref()[i] == p[2 + i], "C21: parsed DID key bytes differ from the decoded payload");
+                    i += 1;
+                }
+            }
+            Err(e) => std::mem::forget(e),
+        }
+        kani::cover!(true);
+    }
+    macro_rules! did {
+        ($name:ident, $len:expr) => {
+            #[kani::proof]
+            #[kani::unwind(40)]
+            #[kani::stub(multibase::decode, multibase_decode_stub)]
+            fn $name() {
+                did_parse::<{ $len }>()
+            }
+        };
+    }
+    did!(c21_did_payload_len1, 1);
+    did!(c21_did_payload_len34, 34);
+
     pk!(c21_public_key_payload_len0, 0);
     pk!(c21_public_key_payload_len1, 1);
     pk!(c21_public_key_payload_len2, 2);
